@@ -1,6 +1,6 @@
 SPECIFICATION Spec
 CONSTANTS
-  SORTED = TRUE
+  SORTED = "keys"
   ATTRS = {1, 2, 3}
   MAXSTYLES = 3
 INVARIANT OrderIndependent
